@@ -1,0 +1,26 @@
+//! Verification-only seam (compiled only with `--cfg libp2p_verif`).
+//!
+//! Listener ids come from a process-wide counter; a deterministic simulator running one
+//! simulation per thread can switch the current thread to a thread-local counter so that the
+//! ids of a run are a function of that run alone. Off by default.
+
+use std::cell::Cell;
+
+thread_local! {
+    static NEXT_LISTENER_ID: Cell<Option<usize>> = const { Cell::new(None) };
+}
+
+/// `Some(start)`: allocate listener ids for this thread from `start` upwards.
+/// `None`: back to the process-wide counter.
+pub fn set_thread_local_listener_ids(start: Option<usize>) {
+    NEXT_LISTENER_ID.with(|c| c.set(start));
+}
+
+pub(crate) fn next_listener_id() -> Option<usize> {
+    NEXT_LISTENER_ID.with(|c| {
+        c.get().map(|v| {
+            c.set(Some(v + 1));
+            v
+        })
+    })
+}
